@@ -51,7 +51,7 @@ var c14Lists = []struct {
 }
 
 // argDomain returns the tiny domain of values for a parameter type (nil = cannot synthesise).
-func argDomain(t reflect.Type, variadic bool, method string) []argVal {
+func argDomain(t reflect.Type, variadic bool, method string, wild bool) []argVal {
 	val := func(desc string, v any) argVal {
 		return argVal{desc, func(*int) reflect.Value { return reflect.ValueOf(v) }}
 	}
@@ -78,6 +78,9 @@ func argDomain(t reflect.Type, variadic bool, method string) []argVal {
 			{"Id(c0)", func(*int) reflect.Value { return reflect.ValueOf(jen.Id("c0")) }},
 			{"Qual(x/y,Q).Call()", func(*int) reflect.Value { return reflect.ValueOf(jen.Qual("x/y", "Q").Call()) }},
 		}
+	case t.Kind() == reflect.String && wild:
+		// C02: nonsensical text too
+		return []argVal{val(`"a"`, "a"), val(`""`, ""), val(`"+"`, "+"), val(`"{"`, "{"), val(`"\n"`, "\n"), val(`"//x"`, "//x"), val(`"0X1F"`, "0X1F"), val(`"x/y"`, "x/y"), val(`")"`, ")"), val(`"*/"`, "*/")}
 	case t.Kind() == reflect.String:
 		switch method {
 		case "Op":
@@ -148,7 +151,9 @@ type c14Construct struct {
 
 var c14Skip = map[string]bool{"Clone": true}
 
-func c14Constructs() (cs []c14Construct, missing []string) {
+func c14Constructs() (cs []c14Construct, missing []string) { return apiConstructs(false) }
+
+func apiConstructs(wild bool) (cs []c14Construct, missing []string) {
 	for i := 0; i < stmtType.NumMethod(); i++ {
 		m := stmtType.Method(i)
 		mt := m.Type
@@ -159,7 +164,7 @@ func c14Constructs() (cs []c14Construct, missing []string) {
 		ok := true
 		for p := 1; p < mt.NumIn(); p++ {
 			c.params = append(c.params, mt.In(p))
-			d := argDomain(mt.In(p), mt.IsVariadic() && p == mt.NumIn()-1, m.Name)
+			d := argDomain(mt.In(p), mt.IsVariadic() && p == mt.NumIn()-1, m.Name, wild)
 			if d == nil {
 				ok = false
 			}
